@@ -791,6 +791,19 @@ pub fn query_probe(s: &Sim) -> StateObs {
             }
         }
     }
+    // whole-store lists in orders a client may send: descending, evens then odds, rotated, twice over
+    {
+        let asc = ids.clone();
+        let mut desc = asc.clone();
+        desc.reverse();
+        let mut eo: Vec<u64> = asc.iter().copied().filter(|i| i % 2 == 0).collect();
+        eo.extend(asc.iter().copied().filter(|i| i % 2 == 1));
+        let mut rot = asc.clone();
+        rot.rotate_left(asc.len() / 3);
+        let mut twice = asc.clone();
+        twice.extend(desc.iter());
+        seqs.extend([asc, desc, eo, rot, twice]);
+    }
     for q in seqs {
         let r: Result<BatchesResponse, String> = s.w.query(QueryMsg::BatchesByIds { ids: q.clone() });
         o.probes += 1;
